@@ -4,6 +4,7 @@ package main
 
 import (
 	"fmt"
+	"go/types"
 	"go/token"
 	"strings"
 
@@ -17,6 +18,8 @@ C02-b CRC discipline: in the GPT header encoder the header CRC is computed over 
 C02-c no lossy narrowing into on-disk LBA/size fields: a conversion to a narrower integer of a value derived from table geometry or a partition's Start/End/Size, on the way into an encoder store, must be dominated by a range test (saturation).
 C02-d GetStart/GetSize multiply in 64 bits (shared with C13-a).
 C02-e sector-unit discipline: in partition/gpt and partition/mbr a value counted in sectors (an LBA field of the table or Start/End of a partition) is converted to or from bytes only with the table's own sector size, never with a literal 512/4096 (the property quantifies over both logical sector sizes).
+C02-f one disk identity: if the header encoder can draw a random GUID without keeping it, every function that encodes the header twice (primary and backup) fixes Table.GUID first.
+C02-g names: the entry decoder uses utf16.Decode, so the encoder produces its code units with the utf16 package and never converts a rune straight to uint16.
 Not covered: Start/End/Size reconciliation arithmetic, UTF-16 name handling beyond 'same bytes', the mixed-endian GUID permutation, geometry formulas.`)
 }
 
@@ -35,6 +38,10 @@ func runC02(w *World, r *Report) {
 		}
 	}
 	c02SectorUnits(w, r)
+	c02Identity(w, r)
+	c02Names(w, r)
+	r.Floor("C02-f", r.countRule("C02-f"), 1)
+	r.Floor("C02-g", r.countRule("C02-g"), 1)
 	r.Floor("C02-a", r.countRule("C02-a"), 3)
 	r.Floor("C02-e", r.countRule("C02-e"), 10)
 	r.Floor("C02-b", r.countRule("C02-b"), 3)
@@ -294,4 +301,113 @@ func c02SectorUnits(w *World, r *Report) {
 			}
 		})
 	}
+}
+
+// c02Identity (C02-f): both header copies carry one disk identity. The header encoder is called once per copy; if it
+// can draw a random GUID (blank Table.GUID), the two copies differ unless the caller fixed the GUID first. So either
+// the encoder stores what it drew into Table.GUID, or every function that encodes the header more than once is
+// dominated, at each encoder call, by a call to a function that stores a generated GUID into Table.GUID.
+func c02Identity(w *World, r *Report) {
+	enc := w.Method(pGPT, "Table", "toGPTBytes")
+	isRNG := func(c ssa.CallInstruction) bool {
+		g := c.Common().StaticCallee()
+		if g == nil {
+			return false
+		}
+		n := fullFuncName(g)
+		return strings.Contains(n, "uuid.New") || strings.HasPrefix(n, "math/rand") || strings.HasPrefix(n, "crypto/rand")
+	}
+	storesGUID := func(fn *ssa.Function) bool {
+		found := false
+		allInstrs(fn, func(ins ssa.Instruction) {
+			if st, ok := ins.(*ssa.Store); ok {
+				if n, f, _, ok := fieldOfAddr(st.Addr); ok && n != nil && n.Obj().Name() == "Table" && f.Name() == "GUID" {
+					pv := w.prov(st.Val, provOpts{throughExternal: true})
+					if pv.hasCall(func(rt Root) bool { return rt.Call != nil && isRNG(rt.Call) }) {
+						found = true
+					}
+				}
+			}
+		})
+		return found
+	}
+	draws := len(calls(enc, false, isRNG)) > 0
+	if !draws {
+		r.Ok("C02-f", fnName(enc), "header encoder draws no random identity", w.relFile(enc.Pos()), "")
+		return
+	}
+	if storesGUID(enc) {
+		r.Ok("C02-f", fnName(enc), "a drawn disk GUID is kept in the table", w.relFile(enc.Pos()), "")
+		return
+	}
+	n := 0
+	for _, fn := range w.ModFns {
+		if w.pkgOf(fn) != pGPT || fn.Blocks == nil || fn == enc {
+			continue
+		}
+		ecalls := calls(fn, false, func(c ssa.CallInstruction) bool { return c.Common().StaticCallee() == enc })
+		if len(ecalls) < 2 {
+			continue
+		}
+		n++
+		bad := ""
+		for _, ec := range ecalls {
+			fixed := false
+			for _, c := range calls(fn, false, func(c ssa.CallInstruction) bool {
+				g := c.Common().StaticCallee()
+				return g != nil && w.fnSet[g] && g != enc && g.Blocks != nil && storesGUID(g)
+			}) {
+				if c.Block().Dominates(ec.Block()) {
+					fixed = true
+				}
+			}
+			if !fixed {
+				bad = w.relFile(ec.Pos())
+			}
+		}
+		r.Check(bad == "", "C02-f", fnName(fn), "disk GUID is fixed before the header is encoded twice", w.relFile(fn.Pos()), "",
+			"the header encoder draws a random disk GUID when Table.GUID is blank and does not keep it; this function encodes the header more than once (primary and backup) and the call at "+bad+" is not preceded by a call that stores a generated GUID into the table: the two copies get different identities and the backup no longer mirrors the primary")
+	}
+	if n == 0 {
+		r.Ok("C02-f", pGPT, "no function encodes the header more than once", pGPT, "")
+	}
+}
+
+// c02Names (C02-g): partition names are UTF-16. The decoder turns code units into runes with utf16.Decode, so the
+// encoder must turn runes into code units with the utf16 package (surrogate pairs for runes beyond U+FFFF); a plain
+// conversion rune -> uint16 truncates them.
+func c02Names(w *World, r *Report) {
+	enc := w.Method(pGPT, "Partition", "toBytes")
+	dec := w.Func(pGPT, "partitionFromBytes")
+	uses := func(fn *ssa.Function, names ...string) bool {
+		return len(calls(fn, false, func(c ssa.CallInstruction) bool {
+			g := c.Common().StaticCallee()
+			if g == nil || g.Pkg == nil || g.Pkg.Pkg.Path() != "unicode/utf16" {
+				return false
+			}
+			for _, n := range names {
+				if g.Name() == n {
+					return true
+				}
+			}
+			return false
+		})) > 0
+	}
+	decodes := uses(dec, "Decode", "DecodeRune")
+	encodes := uses(enc, "Encode", "AppendRune", "EncodeRune")
+	trunc := ""
+	allInstrs(enc, func(ins ssa.Instruction) {
+		cv, ok := ins.(*ssa.Convert)
+		if !ok {
+			return
+		}
+		from, to := typeBits(cv.X.Type()), typeBits(cv.Type())
+		if from == 32 && to == 16 {
+			if b, ok := cv.X.Type().Underlying().(*types.Basic); ok && b.Kind() == types.Int32 {
+				trunc = w.relFile(cv.Pos())
+			}
+		}
+	})
+	r.Check(!decodes || (encodes && trunc == ""), "C02-g", fnName(enc), "names are encoded with the UTF-16 encoder the decoder inverts", w.relFile(enc.Pos()), "",
+		"the entry decoder rebuilds the name with utf16.Decode, but the encoder does not produce its code units with the utf16 package"+map[bool]string{true: " (a rune is converted straight to uint16 at " + trunc + ")", false: ""}[trunc != ""]+": a rune beyond U+FFFF is truncated instead of written as a surrogate pair and reads back as a different character")
 }
